@@ -337,8 +337,16 @@ class CatalogMachine(Machine):
                 return self._gen_extra(rng, st, k)
             if r < 0.88:
                 return self._gen_phot(rng, st, k)
-        if r < 0.95:
+        if r < 0.93:
             return self._gen_table(rng, st, k)
+        if r < 0.965:
+            if self.variant == 'source':
+                return {'op': 'method', 'actor': k,
+                        'name': rng.pick(['make_circular_apertures',
+                                          'make_kron_apertures',
+                                          'make_cutouts', 'len', 'iter'])}
+            return {'op': 'method', 'actor': k,
+                    'name': rng.pick(['len', 'iter'])}
         if len(st.actors) < 7:
             return {'op': 'copy', 'actor': k}
         return self._gen_read(rng, st, k)
@@ -483,6 +491,8 @@ class CatalogMachine(Machine):
             self._check_family_extras(st, op)
         elif kind == 'table':
             self._table(st, a, op)
+        elif kind == 'method':
+            self._method(st, a, op)
         else:
             raise Inapplicable(kind)
 
@@ -750,6 +760,52 @@ class CatalogMachine(Machine):
                                     f'{b.rows}) {name}: {d}')
         if len(st.actors) > 1:
             st.stats.probe('family_extras_checked_multi')
+
+    # --- per-source methods -------------------------------------------------
+    def _method(self, st, a, op):
+        name = op['name']
+        cat = a.cat
+        n = 1 if a.scalar else len(a.rows)
+        if name == 'len':
+            out = call(len, cat)
+            if a.scalar:
+                st.stats.fault('reject')
+                if not isinstance(out, Raised):
+                    raise Violation('reject', 'len',
+                                    'len() of a scalar catalog did not raise')
+                return
+            if isinstance(out, Raised) or out != n:
+                raise Violation('commute', 'len', f'{out!r} vs {n}')
+            return
+        if name == 'iter':
+            if a.scalar:
+                return
+            key = 'label' if self.variant == 'source' else 'id'
+            out = call(lambda: [int(getattr(c, key)) for c in cat])
+            exp = [st.keys[r] for r in a.rows]
+            if isinstance(out, Raised) or out != exp:
+                raise Violation('commute', 'iter', f'{out!r} vs {exp}')
+            return
+        if self.variant != 'source':
+            raise Inapplicable(name)
+        args = {'make_circular_apertures': (2.5,), 'make_kron_apertures': (),
+                'make_cutouts': ((5, 7),)}[name]
+        out = call(getattr(cat, name), *args)
+        ref = call(getattr(st.fresh, name), *args)
+        st.trace.add('method', name, digest(out))
+        if isinstance(out, Raised):
+            if isinstance(ref, Raised) and ref.type == out.type:
+                return
+            raise Violation('raises', name, f'rows {a.rows}: {out!r}')
+        if isinstance(ref, Raised):
+            return
+        exp = select(ref, a.rows, a.scalar)
+        d = diff(out, exp, RTOL, ATOL, check_dtype=False)
+        if d:
+            raise Violation('commute', name,
+                            f'{name} on rows {a.rows} (scalar={a.scalar}): '
+                            f'{d}')
+        st.stats.probe('method_checked')
 
     # --- tables -------------------------------------------------------------
     def _table(self, st, a, op):
